@@ -3,7 +3,7 @@ from __future__ import annotations
 
 import ast
 
-from ..astu import U, walk_shallow, fold, NotLiteral, call_name, calls_in, monomial, mono_str
+from ..astu import U, walk_shallow, fold, NotLiteral, call_name, calls_in, monomial, mono_str, has, same
 from ..core import AnalysisError, Mutant, Rule, Twin
 from ..idioms import for_loops, target_names
 from ..tables import roman_value
@@ -223,11 +223,38 @@ def r4_param(ctx):
               STR + ":StrPrinter._print_Reaction", "param-appended", "parameter not appended under with_param", node=pr)
 
 
+def r5_uncertainty_alignment(ctx):
+    """value and uncertainty are rounded at the same decimal position, which is fixed once"""
+    fn = ctx.func(NUM, "_float_str_w_uncert")
+    a = NUM + ":_float_str_w_uncert"
+    defs = {}
+    for n in walk_shallow(fn):
+        if isinstance(n, (ast.Assign, ast.AugAssign)):
+            tg = n.targets if isinstance(n, ast.Assign) else [n.target]
+            for t in tg:
+                for nm in target_names(t):
+                    defs.setdefault(nm, []).append(n)
+    want = {
+        "x_exp": "int(floor(log10(abs(x))))", "xe_exp": "int(floor(log10(abs(xe))))",
+        "un_exp": "xe_exp - precision + 1", "un_int": "round(xe * 10 ** (-un_exp))",
+        "no_exp": "un_exp", "no_int": "round(x * 10 ** (-no_exp))",
+    }
+    for nm, expr in want.items():
+        ds = defs.get(nm, [])
+        ok = len(ds) == 1 and isinstance(ds[0], ast.Assign) and same(ds[0].value, expr, scope=fn)
+        ctx.check(ok, a, "single-definition:" + nm, "`%s` must be defined exactly once as `%s` (value and uncertainty share one rounding position; re-binding it after the other has been rounded "
+                  "makes the printed digits denote a different value): %s" % (nm, expr, [U(d) for d in ds]), node=ds[-1] if ds else fn)
+    ctx.check(has(fn, "(fmt + '(%.0f)e%d') % (no_int * 10 ** (-fieldw), un_int, x_exp)") and has(fn, "fieldw = x_exp - no_exp"), a, "exponent-form", "exponent form must print no_int*10**-(x_exp-no_exp), (un_int), e x_exp", node=fn)
+    ctx.check(has(fn, "(fmt + '(%.0f)') % (no_int * 10 ** no_exp, un_int * 10 ** max(0, un_exp))") and has(fn, "fieldw = max(0, -no_exp)"), a, "plain-form", "plain form must print no_int*10**no_exp with max(0,-no_exp) decimals and (un_int*10**max(0,un_exp))", node=fn)
+    ctx.check(has(fn, "if len(result2) <= len(result1): return result2 else: return result1"), a, "shortest-wins", "the shorter of the two layouts must be returned", node=fn)
+
+
 RULES = [
     Rule("C20-R1", r1_roman, 18, "roman table == standard definition; greedy loop"),
     Rule("C20-R2", r2_pow10, 13, "power-of-ten siblings"),
     Rule("C20-R3", r3_wiring, 16, "number_to_scientific_<x> wiring; _number_to_X precision/unit/uncertainty"),
     Rule("C20-R4", r4_param, 5, "_Reaction_param_str = magnitude + separator + unit"),
+    Rule("C20-R5", r5_uncertainty_alignment, 9, "_float_str_w_uncert: one rounding position for value and uncertainty; both layouts"),
 ]
 
 MUTANTS = [
@@ -245,6 +272,9 @@ MUTANTS = [
     Mutant("param-unit-first", [(STR, 'return magnitude_str + self._str(" ") + unit_str', 'return unit_str + self._str(" ") + magnitude_str')], "C20-R4", "magnitude-sep-unit"),
     Mutant("param-magnitude-of-wrong-attr", [(STR, "unit_str = unit_fmt(rxn.param.dimensionality)", "unit_str = unit_fmt(rxn.param.units)")], "C20-R4", "unit"),
 ]
+
+MUTANTS.append(Mutant("uncert-rebinds-position", [(NUM, "    # format - nom(unc)exp\n", "    if un_int == 10 ** precision:\n        un_int //= 10\n        un_exp += 1\n\n    # format - nom(unc)exp\n")], "C20-R5", "single-definition"))
+MUTANTS.append(Mutant("uncert-value-other-position", [(NUM, "    no_exp = un_exp\n", "    no_exp = un_exp + 1\n")], "C20-R5", "no_exp"))
 
 TWINS = [
     Twin("roman-list-literals", [(NUM, '"M CM D CD C XC L XL X IX V IV I".split()', '["M", "CM", "D", "CD", "C", "XC", "L", "XL", "X", "IX", "V", "IV", "I"]')]),
